@@ -215,7 +215,7 @@ def _standins(vc):
               "from slices of the gen index: outside the deductive fragment); voltage limits of two buses fused by a closed bus-bus switch; a "
               "non-controllable gen with scaling 0.5 (OPF result against a power flow with the OPF dispatch)",
         script="import sys\nfrom replaylib.opf_feasible import main_dcline, main_more\n"
-               "for f in (main_dcline, main_more):\n    try:\n        f()\n    except SystemExit as e:\n        if e.code:\n            raise\n",
+               "from replaylib import run_all\nrun_all(main_dcline, main_more)\n",
         timeout=900))
 
 
@@ -319,7 +319,7 @@ def replay(ob, model, finding=None):
                                "minimum): converged voltages and the limits handed to the solver against the declared ranges"}
     if ob.meta.get("part") == "gen":
         return {"script": f"# replay of {ob.id}\nimport sys\nfrom replaylib.opf_feasible import main, main_more\n"
-                          "for f in (main, main_more):\n    try:\n        f()\n    except SystemExit as e:\n        if e.code:\n            raise\n",
+                          "from replaylib import run_all\nrun_all(main, main_more)\n",
                 "description": "AC OPF with controllable elements with asymmetric limits; a non-controllable gen with a scaling factor: results "
                                "inside the declared limits and reproduced by a power flow with the OPF dispatch"}
     return {"script": f"# replay of {ob.id}\nfrom replaylib.opf_feasible import main\nmain()\n",
